@@ -445,10 +445,51 @@ def reads_in(t):
 
 
 def consts_in(t):
+    """integer constants of a size/count term; a reader-primitive call is an atom (a file field) - constants inside its receiver (say
+    the capacity of a BufReader the input was wrapped in) say nothing about the size"""
     out = []
-    for x in walk(t):
-        if isinstance(x, tuple) and x[0] == 'const' and isinstance(x[1], int) and not isinstance(x[1], bool):
-            out.append(x[1])
+
+    def rec(x):
+        if isinstance(x, frozenset):
+            for y in x:
+                rec(y)
+            return
+        if not isinstance(x, tuple) or not x:
+            return
+        if x[0] == 'const':
+            if isinstance(x[1], int) and not isinstance(x[1], bool):
+                out.append(x[1])
+            return
+        if x[0] == 'call' and isinstance(x[1], str) and x[1].startswith(READER) and x[3] is not None:
+            for a in x[2][1:]:
+                rec(a)
+            return
+        for y in x:
+            rec(y)
+    rec(t)
+    return out
+
+
+def calls_outside_reads(t):
+    """callee names in a size/count term, a reader-primitive call being an atom (its receiver is the input, however wrapped)"""
+    out = set()
+
+    def rec(x):
+        if isinstance(x, frozenset):
+            for y in x:
+                rec(y)
+            return
+        if not isinstance(x, tuple) or not x:
+            return
+        if x[0] == 'call' and isinstance(x[1], str):
+            out.add(x[1])
+            if x[1].startswith(READER) and x[3] is not None:
+                for a in x[2][1:]:
+                    rec(a)
+                return
+        for y in x:
+            rec(y)
+    rec(t)
     return out
 
 
